@@ -17,6 +17,7 @@ type Query {
   node(id: ID!): Node
   pet(id: ID!, input: PetInput): Pet
   count: Int
+  usersByIds(ids: [ID!]!, names: [String]): [User!]!
   search(text: String!, kind: Kind): [SearchResult]
 }
 
@@ -38,6 +39,12 @@ type User implements Node {
   friends(first: Int): [User!]
   bestFriend: User
   pets: [Pet!]!
+  stats: Stats
+}
+
+type Stats {
+  score: Int
+  rank: Int!
 }
 
 type Pet implements Node {
@@ -86,6 +93,7 @@ pub enum Ty {
     User,
     Pet,
     Node,
+    Stats,
 }
 
 impl Ty {
@@ -95,6 +103,7 @@ impl Ty {
             Ty::User => "User",
             Ty::Pet => "Pet",
             Ty::Node => "Node",
+            Ty::Stats => "Stats",
         }
     }
 }
@@ -136,6 +145,14 @@ pub enum Menu {
     Abstract,
     /// two client fields on User that may select themselves and each other (directly, or through a linked field)
     Cycles,
+    /// a parent and a child client field whose selection sets overlap in nested linked fields
+    Overlap,
+    /// client pointers (concrete, abstract and list targets) selected at several positions
+    Pointers,
+    /// declaration shapes: field / pointer on every kind of parent type x variable definitions x entrypoint on it
+    Decls,
+    /// client fields with parameters, selected with literal / variable / missing arguments (variable substitution through client fields)
+    ClientArgs,
 }
 
 pub fn menu(ty: Ty, m: Menu) -> Vec<Atom> {
@@ -162,7 +179,10 @@ pub fn menu(ty: Ty, m: Menu) -> Vec<Atom> {
             a("age @updatable"),
             a("__refetch"),
             a("set_name"),
+            o("stats", Ty::Stats),
         ],
+        (Ty::Stats, Menu::General) => vec![a("score"), a("rank"), c("StatsChild", "Stats.StatsChild")],
+        (Ty::Stats, _) => vec![a("score")],
         (Ty::Pet, Menu::General) => vec![a("id"), a("name"), a("tag"), o("owner", Ty::User), c("PetChild", "Pet.PetChild")],
         (Ty::Node, Menu::General) => vec![a("id"), o("asUser", Ty::User), o("asPet", Ty::Pet)],
 
@@ -179,12 +199,52 @@ pub fn menu(ty: Ty, m: Menu) -> Vec<Atom> {
             ov("pet2: pet(id: $id, input: {nested: {a: $n}})", Ty::Pet, &[("id", "ID!"), ("n", "Int")]),
             ov("pet3: pet(id: \"p\", input: $input)", Ty::Pet, &[("input", "PetInput")]),
             o("search(text: \"t\")", Ty::Node),
+            ov("usersByIds(ids: $ids)", Ty::User, &[("ids", "[ID!]!")]),
+            ov("ubi2: usersByIds(ids: $ids, names: $names)", Ty::User, &[("ids", "[ID!]!"), ("names", "[String]")]),
             o("ua: users(name: \"a b\")", Ty::User),
             o("ub: users(name: \"a_b\")", Ty::User),
         ],
         (Ty::User, Menu::Args) => vec![a("id"), a("name"), o("friends(first: 0)", Ty::User), ov("f2: friends(first: $n)", Ty::User, &[("n", "Int")])],
         (Ty::Pet, Menu::Args) => vec![a("id"), a("tag(style: \"s\", n: 1)"), a("t2: tag(style: \"it's\")"), av("t3: tag(n: $n)", &[("n", "Int")]), a("t4: tag(n: -1)")],
         (Ty::Node, Menu::Args) => vec![a("__typename")],
+
+        (_, Menu::Decls) => vec![a("id")],
+        (Ty::Query, Menu::Pointers) => vec![
+            o("me", Ty::User),
+            Atom { text: "bestUser", child: Some(Ty::User), vars: &[], needs: Some("Query.bestUser") },
+            Atom { text: "someNode", child: Some(Ty::Node), vars: &[], needs: Some("Query.someNode") },
+            ov("pet(id: $id)", Ty::Pet, &[("id", "ID!")]),
+        ],
+        (Ty::User, Menu::Pointers) => vec![
+            a("id"),
+            a("name"),
+            Atom { text: "bestPet", child: Some(Ty::Pet), vars: &[], needs: Some("User.bestPet") },
+            Atom { text: "friendPtrs", child: Some(Ty::User), vars: &[], needs: Some("User.friendPtrs") },
+        ],
+        (Ty::Pet, Menu::Pointers) => vec![a("id"), a("name"), Atom { text: "ownerNode", child: Some(Ty::Node), vars: &[], needs: Some("Pet.ownerNode") }, o("owner", Ty::User)],
+        (Ty::Node, Menu::Pointers) => vec![a("id"), a("__typename"), o("asUser", Ty::User)],
+        (Ty::Stats, Menu::Pointers) => vec![a("score")],
+        (Ty::Query, Menu::Overlap) => vec![o("me", Ty::User)],
+        (Ty::User, Menu::Overlap) => vec![a("id"), a("name"), a("nick"), o("bestFriend", Ty::User), c("UserChild", "User.UserChild")],
+        (_, Menu::Overlap) => vec![a("id")],
+
+        (Ty::Query, Menu::ClientArgs) => vec![
+            o("me", Ty::User),
+            c("PetQ(x: 3)", "Query.PetQ"),
+            Atom { text: "pq2: PetQ(x: $m)", child: None, vars: &[("m", "Int")], needs: Some("Query.PetQ") },
+            c("pq3: PetQ", "Query.PetQ"),
+            ov("user(id: $id)", Ty::User, &[("id", "ID!")]),
+        ],
+        (Ty::User, Menu::ClientArgs) => vec![
+            a("id"),
+            c("Friends(n: 1)", "User.Friends"),
+            Atom { text: "fr2: Friends(n: $m)", child: None, vars: &[("m", "Int")], needs: Some("User.Friends") },
+            c("fr3: Friends", "User.Friends"),
+            Atom { text: "WithInput(x: $m)", child: None, vars: &[("m", "Int")], needs: Some("User.WithInput") },
+            c("wi2: WithInput(x: 2)", "User.WithInput"),
+            c("fr4: Friends(n: 1) @loadable", "User.Friends"),
+        ],
+        (_, Menu::ClientArgs) => vec![a("id")],
 
         (Ty::Query, Menu::Cycles) => vec![o("me", Ty::User)],
         (Ty::User, Menu::Cycles) => vec![a("id"), c("A", "User.A"), c("B", "User.B"), o("bestFriend", Ty::User), c("B @loadable", "User.B")],
@@ -302,6 +362,10 @@ pub enum Decl {
     Field { ty: Ty, name: String, set: Vec<Sel>, component: bool },
     Pointer { ty: Ty, name: String, to: String, set: Vec<Sel> },
     Entrypoint { ty: Ty, name: String },
+    /// a fixed declaration given as literal text
+    Raw { export: String, text: String },
+    /// a fixed non-exported literal (entrypoint) given as text
+    RawBare { text: String },
 }
 
 #[derive(Debug, Clone, Serialize, Deserialize, PartialEq, Eq)]
@@ -329,6 +393,8 @@ impl Program {
                     (Some(name.clone()), format!("pointer {}.{}{} to {} {}", ty.name(), name, vd, to, body))
                 }
                 Decl::Entrypoint { ty, name } => (None, format!("entrypoint {}.{}", ty.name(), name)),
+                Decl::Raw { export, text } => (Some(export.clone()), text.clone()),
+                Decl::RawBare { text } => (None, text.clone()),
             })
             .collect()
     }
@@ -370,6 +436,111 @@ pub fn programs(m: Menu, k: usize) -> Vec<Program> {
         }
         return out;
     }
+    if m == Menu::Decls {
+        // (parent type, a scalar body, a body using $id, a body ending in a linked field to User)
+        let parents: [(&str, &str, Option<&str>, Option<&str>); 8] = [
+            ("Query", "count", Some("user(id: $id) {\n    id\n  }"), Some("me {\n    __link\n  }")),
+            ("User", "id", Some("friends(first: $id) {\n    id\n  }"), Some("bestFriend {\n    __link\n  }")),
+            ("Pet", "name", Some("tag(style: $id)"), Some("owner {\n    __link\n  }")),
+            ("Node", "id", None, None),
+            ("Stats", "rank", None, None),
+            ("Mutation", "__typename", Some("set_name(id: $id, name: \"n\") {\n    user {\n      id\n    }\n  }"), None),
+            ("SearchResult", "__typename", None, None),
+            ("SetNameResponse", "__typename", None, Some("user {\n    __link\n  }")),
+        ];
+        let vars = ["", "($id: ID!)", "($id: ID)", "($id: Int)", "($id: String, $other: Int)"];
+        for (ty, scalar, using, linked) in parents {
+            for v in vars {
+                for body in [Some(scalar), using].into_iter().flatten() {
+                    for dirs in ["", " @component"] {
+                        for ep in [0, 1, 2] {
+                            let mut decls = vec![Decl::Raw { export: "Zed".into(), text: format!("field {ty}.Zed{v}{dirs} {{\n  {body}\n}}") }];
+                            match ep {
+                                1 => decls.push(Decl::RawBare { text: format!("entrypoint {ty}.Zed") }),
+                                2 => decls.push(Decl::RawBare { text: format!("entrypoint {ty}.Zed @lazyLoad") }),
+                                _ => {}
+                            }
+                            out.push(Program { menu: m, decls });
+                        }
+                    }
+                }
+                if let Some(l) = linked {
+                    for ep in [0, 1] {
+                        let mut decls = vec![Decl::Raw { export: "Ptr".into(), text: format!("pointer {ty}.Ptr{v} to User {{\n  {l}\n}}") }, Decl::Raw { export: "Use".into(), text: format!("field {ty}.Use {{\n  Ptr {{\n    id\n  }}\n}}") }];
+                        decls.push(Decl::RawBare { text: format!("entrypoint {ty}.{}", if ep == 0 { "Use" } else { "Ptr" }) });
+                        out.push(Program { menu: m, decls });
+                    }
+                }
+            }
+        }
+        return out;
+    }
+    if m == Menu::Overlap {
+        // Root { me { S1 + UserChild } }, UserChild { S2 }: S1, S2 range over nested sets (depth 2) with <= k nodes
+        let mut sets = vec![];
+        for n in 1..=k {
+            sets.extend(selection_sets(Ty::User, m, n, 2, &[]));
+        }
+        let mk = |atom: usize, child: Option<Vec<Sel>>| Sel { atom, child, alias: None, raw: None };
+        for s1 in &sets {
+            for s2 in &sets {
+                let mut inner = s1.clone();
+                inner.push(mk(4, None));
+                out.push(Program {
+                    menu: m,
+                    decls: vec![Decl::Field { ty: Ty::Query, name: "Root".into(), set: vec![mk(0, Some(inner))], component: false }, Decl::Field { ty: Ty::User, name: "UserChild".into(), set: s2.clone(), component: false }, ep.clone()],
+                });
+            }
+        }
+        return out;
+    }
+    if m == Menu::Pointers {
+        let avail = ["Query.bestUser", "Query.someNode", "User.bestPet", "User.friendPtrs", "Pet.ownerNode"];
+        let fixed = vec![
+            Decl::Raw { export: "bestUser".into(), text: "pointer Query.bestUser to User {\n  users(first: 2) {\n    __link\n    name\n  }\n}".into() },
+            Decl::Raw { export: "someNode".into(), text: "pointer Query.someNode to Node {\n  nn: node(id: \"1\") {\n    __link\n  }\n}".into() },
+            Decl::Raw { export: "bestPet".into(), text: "pointer User.bestPet to Pet {\n  pets {\n    __link\n  }\n}".into() },
+            Decl::Raw { export: "friendPtrs".into(), text: "pointer User.friendPtrs to [User!]! {\n  friends(first: 2) {\n    __link\n  }\n}".into() },
+            Decl::Raw { export: "ownerNode".into(), text: "pointer Pet.ownerNode to Node {\n  owner {\n    __link\n  }\n}".into() },
+        ];
+        for n in 0..=k {
+            for set in selection_sets(Ty::Query, m, n, 3, &avail) {
+                let mut decls = vec![Decl::Field { ty: Ty::Query, name: "Root".into(), set: set.clone(), component: false }];
+                decls.extend(fixed.clone());
+                decls.push(ep.clone());
+                out.push(Program { menu: m, decls });
+                // the same selections reached through a child client field (pointers nested in client fields)
+                fn uses_vars(s: &[Sel], t: Ty, m: Menu) -> bool {
+                    let atoms = menu(t, m);
+                    s.iter().any(|x| !atoms[x.atom].vars.is_empty() || x.child.as_ref().is_some_and(|c| uses_vars(c, atoms[x.atom].child.unwrap(), m)))
+                }
+                if n > 0 && !uses_vars(&set, Ty::Query, m) {
+                    let mut decls = vec![Decl::Raw { export: "Root".into(), text: "field Query.Root {\n  Through\n}".into() }, Decl::Field { ty: Ty::Query, name: "Through".into(), set, component: false }];
+                    decls.extend(fixed.clone());
+                    decls.push(ep.clone());
+                    out.push(Program { menu: m, decls });
+                }
+            }
+        }
+        return out;
+    }
+    if m == Menu::ClientArgs {
+        let avail = ["Query.PetQ", "User.Friends", "User.WithInput"];
+        let fixed = vec![
+            Decl::Raw { export: "Friends".into(), text: "field User.Friends($n: Int) {\n  friends(first: $n) {\n    id\n  }\n}".into() },
+            Decl::Raw { export: "WithInput".into(), text: "field User.WithInput($x: Int) {\n  pets {\n    tag(n: $x)\n  }\n  bestFriend {\n    Friends(n: $x)\n  }\n}".into() },
+            Decl::Raw { export: "PetQ".into(), text: "field Query.PetQ($x: Int) {\n  pet(id: \"p\", input: {n: $x, nested: {a: $x}}) {\n    id\n  }\n}".into() },
+        ];
+        for n in 0..=k {
+            for set in selection_sets(Ty::Query, m, n, 2, &avail) {
+                let mut decls = vec![Decl::Field { ty: Ty::Query, name: "Root".into(), set, component: false }];
+                decls.extend(fixed.clone());
+                decls.push(ep.clone());
+                out.push(Program { menu: m, decls });
+            }
+        }
+        return out;
+    }
     // Single
     for n in 0..=k {
         for set in selection_sets(Ty::Query, m, n, 2, &[]) {
@@ -398,6 +569,25 @@ pub fn programs(m: Menu, k: usize) -> Vec<Program> {
             }
         }
         let _ = avail;
+    }
+    // a client field on a type without `id`, selected through a linked field (empty merged selections)
+    let user_menu = menu(Ty::User, m);
+    let stats_menu = menu(Ty::Stats, m);
+    if let (Some(me), Some(st), Some(sc)) = (menu(Ty::Query, m).iter().position(|a| a.text == "me"), user_menu.iter().position(|a| a.text == "stats"), stats_menu.iter().position(|a| a.needs == Some("Stats.StatsChild"))) {
+        let mk = |atom: usize, child: Option<Vec<Sel>>| Sel { atom, child, alias: None, raw: None };
+        for n in 0..k.min(3) {
+            for set in selection_sets(Ty::Stats, m, n, 0, &[]) {
+                for with_sibling in [false, true] {
+                    let mut inner = vec![];
+                    if with_sibling {
+                        inner.push(mk(0, None));
+                    }
+                    inner.push(mk(sc, None));
+                    let root = vec![mk(me, Some(vec![mk(st, Some(inner))]))];
+                    out.push(Program { menu: m, decls: vec![Decl::Field { ty: Ty::Query, name: "Root".into(), set: root, component: false }, Decl::Field { ty: Ty::Stats, name: "StatsChild".into(), set: set.clone(), component: true }, ep.clone()] });
+                }
+            }
+        }
     }
     out
 }
